@@ -110,23 +110,6 @@ fn f_p256_pk_compact_tag() -> bool {
     false
 }
 
-fn f_p256_oprf_elem_compact_tag() -> bool {
-    for _ in 0..64 {
-        let s = ClientRegistration::<P>::start(&mut OsRng, b"pw").unwrap();
-        let good = s.message.serialize();
-        if good[0] != 0x02 {
-            continue;
-        }
-        let mut alt = good.to_vec();
-        alt[0] = 0x05;
-        return match RegistrationRequest::<P>::deserialize(&alt) {
-            Ok(m) => m.serialize().as_slice() == good.as_slice(),
-            Err(_) => false,
-        };
-    }
-    false
-}
-
 fn f_x25519_small_order_pk() -> bool {
     // u = 1 has order 4; X25519 with any clamped scalar gives the all-zero shared secret
     let mut u = [0u8; 32];
@@ -173,7 +156,6 @@ mod present {
     finding!(f_reg_request_overlong);
     finding!(f_setup_external_key_reload);
     finding!(f_p256_pk_compact_tag);
-    finding!(f_p256_oprf_elem_compact_tag);
     finding!(f_x25519_small_order_pk);
     finding!(f_x25519_noncanonical_pk_alias);
 }
